@@ -18,7 +18,7 @@ inductive Ref
   | none
 deriving Repr
 
-variable (T : Tables) (dflt : Defaults)
+variable (T : Tables)
 
 def isBase (dt : Option String) : Bool := Datatypes.isBase T.base dt
 
@@ -114,7 +114,7 @@ def parseStruct (ref : Ref) : R Struct :=
 def leaf (dt : Option String) (text : Str) (strict : Bool) : R LeafV :=
   match dt with
   | Option.none => .error .InvalidDataType
-  | some dn => Datatypes.factory T.base dflt dn text strict
+  | some dn => Datatypes.factory T.base dn text strict
 
 -- ---------------------------------------------------------------- subcomponents
 structure SubC where
@@ -171,7 +171,7 @@ def subcomponent (text : Str) (name dt : Option String) (strict : Bool) (referen
     cur := dt
     nmOut := cur
   if isVar && cur.isNone then cur := some "ST"
-  let v ← if text.isEmpty then pure LeafV.empty else leaf T dflt cur text strict
+  let v ← if text.isEmpty then pure LeafV.empty else leaf T cur text strict
   pure ⟨nmOut, cur, v⟩
 
 def lookupRef (refs : Option (List (String × Ref))) (n : String) : Option Ref :=
@@ -193,7 +193,7 @@ def subcomponents (text : Str) (cdt : Option String) (ec : EC) (strict : Bool)
         | none => (none, some "ST", none)
       | _, _ => (n, d, none)
     if !blank sub || n.isNone then
-      let sc ← subcomponent T dflt sub n d strict ref
+      let sc ← subcomponent T sub n d strict ref
       pure (acc ++ [sc])
     else pure acc) []
 
@@ -299,7 +299,7 @@ def component (text : Str) (name datatype : Option String) (ec : EC) (strict : B
     | .ok c => pure c
     | .error .InvalidName => if strict then throw Exc.InvalidName else componentNew T datatype none strict reference
     | .error e => throw e
-  let kids ← subcomponents T dflt text c.dt ec strict c.byName
+  let kids ← subcomponents T text c.dt ec strict c.byName
   let mut c := c
   if !strict && isBase T c.dt && kids.length > 1 then
     let (d, b) ← setDatatype T c.dt c.byName 0 none strict
@@ -420,7 +420,7 @@ def components (text : Str) (fdt : Option String) (ec : EC) (strict : Bool)
     let ref : Option Ref := match cn with | some n => lookupRef refs n | none => none
     let isVar := match cn with | some n => n.startsWith "VARIES_" | none => false
     if !blank comp || cn.isNone || isVar then
-      let c ← component T dflt comp cn cdt ec strict ref
+      let c ← component T comp cn cdt ec strict ref
       pure (acc ++ [c])
     else pure acc) []
 
@@ -432,13 +432,13 @@ def field (text : Str) (name : Option String) (ec : EC) (strict : Bool) (referen
       else fieldNew T none none strict reference
     | .error e => throw e
   if name == some "MSH_1" || name == some "MSH_2" then
-    let sc ← subcomponent T dflt text none (some "ST") strict none
+    let sc ← subcomponent T text none (some "ST") strict none
     let c ← componentNew T none (some "ST") strict none
     let c ← compAdd T c sc strict
     let f ← fieldAdd T f c strict
     pure { f with raw := some text }
   else
-    let kids ← components T dflt text f.dt ec strict f.byName
+    let kids ← components T text f.dt ec strict f.byName
     let mut f := f
     if !strict && isBase T f.dt && kids.length > 1 then
       let (d, b) ← setDatatype T f.dt f.byName 0 none strict
@@ -601,7 +601,7 @@ def fieldTraverse (f : Fld) (name : String) : R (String × Option String) :=
     (`ElementList.set` → `parse_child` → `append`) -/
 def segSetStr (sg : Seg) (name : String) (value : Str) (ec : EC) (strict : Bool) : R Seg := do
   let (cname, ref) ← segFindChild T sg name
-  let f ← field T dflt value (some cname) ec strict (some ref) sg.inf
+  let f ← field T value (some cname) ec strict (some ref) sg.inf
   if f.name != some cname then throw .ChildNotValid
   segAdd T sg f strict
 
@@ -616,14 +616,14 @@ def segment (text : Str) (ec : EC) (strict : Bool) : R Seg := do
     let ref := sg0.byName.lookup fname
     if !blank ft then
       if fname == "MSH_2" then
-        let f ← field T dflt ft (some fname) ec strict ref false
+        let f ← field T ft (some fname) ec strict ref false
         pure (acc ++ [f])
       else
         (splitOn ec.rep ft).foldlM (fun acc rep => do
-          let f ← field T dflt rep (some fname) ec strict ref sg0.inf
+          let f ← field T rep (some fname) ec strict ref sg0.inf
           pure (acc ++ [f])) acc
     else if fname == "MSH_1" then
-      let f ← field T dflt [ec.field] (some fname) ec strict ref false
+      let f ← field T [ec.field] (some fname) ec strict ref false
       pure (acc ++ [f])
     else pure acc) []
   fields.foldlM (fun sg f => segAdd T sg f strict) sg0
